@@ -41,7 +41,8 @@ def run_one(kind, entry, props):
         fired = sorted(set(re.findall(r"VIOLATION property=(C\d+)", out)))
         details = [l.strip() for l in out.splitlines() if l.strip().startswith(("VIOLATED", "UNDECIDED"))]
         if kind == "mutants":
-            missing = [p for p in entry.get("expect", []) if p not in fired]
+            requested = None if props == "all" else set(props.split(","))
+            missing = [p for p in entry.get("expect", []) if p not in fired and (requested is None or p in requested)]
             st = "killed" if not missing and fired else "survived"
             return {"id": entry["id"], "status": st, "fired": fired, "missing": missing, "details": details[:6]}
         else:
